@@ -123,6 +123,8 @@ def main():
                 break
         else:
             continue
+        if not futfree and rng.random() < 0.4:
+            phi = _c08.shaped_past(rng, g)
         vs = vars_of(phi) or ["x"]
         pnum, punit = rng.choice(_c08.PERIODS)
         default = rng.choice(["s", "ms", "us"])
